@@ -94,7 +94,7 @@ func (p c06) Run(runseed uint64, tier string, acc *Acc) []*core.Violation {
 		w = core.GenHistory(r, c06Opts(tier))
 	}
 	acc.Runs++
-	c := &core.Case{Prop: "C06", Seed: runseed, W: w}
+	c := &core.Case{Prop: "C06", Seed: runseed, W: w, SinkKind: []string{"w", "wx"}[r.Intn(2)], SourceKind: []string{"rs", "rsb", "rsx"}[r.Intn(3)]}
 	v, steps, digest := p.check(c)
 	acc.Evals++
 	acc.Steps += steps
@@ -134,7 +134,7 @@ func (p c06) Run(runseed uint64, tier string, acc *Acc) []*core.Violation {
 
 func (p c06) check(c *core.Case) (*core.Violation, int, uint64) {
 	sink := &core.Sink{}
-	res := core.ExecWriter(c.W, sink)
+	res := core.ExecWriterKind(c.W, sink, sinkKindOr(c.SinkKind))
 	steps := len(sink.Calls)
 	digest := core.HashBytes(append([]byte(c.W.HistoryString()), sink.Data...))
 	mk := func(sig, detail string) (*core.Violation, int, uint64) {
@@ -175,7 +175,7 @@ func (p c06) check(c *core.Case) (*core.Violation, int, uint64) {
 	// 2. read-back through the generated reader over an ideal source
 	src := core.NewSource(sink.Data, nil, nil)
 	src.MaxCalls = 200000 + 400*len(sink.Data)
-	rr := core.ExecReader(c.W.Shape, src, 2*len(wantRecs)+16, nil)
+	rr := core.ExecReader(c.W.Shape, src.AsReadSeeker(kindOr(c.SourceKind)), 2*len(wantRecs)+16, nil)
 	steps += src.Stats.Calls
 	switch {
 	case rr.Panic != "":
